@@ -11,3 +11,15 @@ claim("C19",
       "The byte layout emitted by every Serialize (all success paths) and the layout consumed by the matching Deserialize case are extracted from the code of the current tree and compared: tag constants, field offsets, bool encodings vs. decodings, length-prefix position/width/endianness, payload range, length guards, coverage of every Message implementation and every struct field, tag uniqueness. Agreement of the two layouts is a proof-shaped argument for decode(encode(v)) == v over all field values and payloads at once, which sampling cannot give; it is claimed as 'other' because the extractor recognises a fixed set of emission/consumption idioms and trusts bytes.Buffer and encoding/binary.",
       "Not decided: payloads of 4 GiB or more (uint32 length prefix), behaviour of bytes.Buffer/encoding/binary. An unrecognised writer or reader idiom is reported as undecided (fails), never silently accepted.",
       "DESIGN.md §4 C19")
+
+claim("C15",
+      "dataflow over SSA return values (count provenance), path queries for remainder retention, interval analysis for narrowing conversions",
+      "For every Read/Write method of the three secured connection types the provenance of each returned count is traced in the SSA: a Read count must be 0, the result of copy into the caller's buffer, or the count of a delegated Read on that buffer - which proves n <= len(buf) for every buffer size and message size, a statement over all inputs that tests cannot exhaust. The retention of uncopied bytes (field advanced by exactly the copy count on every path, refilled only when empty with a whole message, single writer) and the contiguity/accounting of chunked writes are checked as path properties; every narrowing conversion of a length is proved exact by interval analysis (no silent truncation).",
+      "Not decided: equality of the concatenated streams as a property of whole histories (it follows from these structural facts plus C08 and C16 by induction, which the checker does not carry out). bytes.Buffer and copy are trusted.",
+      "DESIGN.md §4 C15")
+
+claim("C16",
+      "who-may-call lint on typed call sites (io.Reader.Read vs io.ReadFull) with error-discipline check; dominance/ordering rules on Flush and WriteMessage",
+      "Every transport read of the handshake and record layer is enumerated from the typed SSA: a bare Read on an io.Reader that is a parameter or field is a violation, io.ReadFull must have its error tested and returned - so no fragmentation of any granularity can leave a half-filled field (all fragmentations at once). For partial writes, Flush must advance each pending slice by the count of that very Write before looking at the error, must return a header error before touching the body, and WriteMessage's two Encrypt calls must be dominated by the nothing-pending test and the 65535 bound.",
+      "Not decided: the arithmetic that subtracts MAC bytes from the count returned by Flush (piecewise-linear in the write count; only sampled by the repository's TestFlush).",
+      "DESIGN.md §4 C16")
